@@ -366,6 +366,8 @@ def as_z3_bool(x):
 # ----------------------------------------------------------------------------------------
 # SymInt
 
+UNI = None   # per-obligation uniform width: arithmetic results are kept at this width (no intermediate narrowing), so that
+             # z3's sum normaliser can cancel linear identities syntactically
 CAP = None   # per-obligation width cap: values whose interval needs more bits are tracked modulo 2**CAP ("inexact")
 HUGE = 1 << 20000
 
@@ -394,6 +396,8 @@ def mk_int(e, lo, hi, inx=False):
         return SymInt(e, max(lo, -HUGE), min(hi, HUGE), True)
     if w > MAX_WIDTH:
         raise EngineError("integer wider than %d bits" % MAX_WIDTH)
+    if UNI is not None and e.size() == UNI and w <= UNI:
+        return SymInt(e, lo, hi)
     if e.size() > w:
         e = trunc(e, w)
     elif e.size() < w:
@@ -413,6 +417,8 @@ def _ring(f, lo, hi, *ops):
             raise EngineError("inexact operand without a width cap")
         w = CAP
         inx = True
+    elif UNI is not None and w <= UNI:
+        w = UNI
     args = [bv(p, w) if isinstance(p, int) else p.at(w) for p in ops]
     return mk_int(f(*args), lo, hi, inx)
 
@@ -589,11 +595,14 @@ class SymInt:
                 raise ZeroDivisionError("integer division or modulo by zero")
             if o > 0 and o & (o - 1) == 0:
                 k = o.bit_length() - 1
-                if want == "q":
-                    return self >> k
                 if want == "r":
                     return self & (o - 1)
-                return (self >> k, self & (o - 1))
+                if CUR is None or CUR.no_fork or k == 0 or self.hi - self.lo < (1 << 40):
+                    if want == "q":
+                        return self >> k
+                    return (self >> k, self & (o - 1))
+            if o > 0 and CUR is not None and not CUR.no_fork:
+                return self._divmod_const_spec(o, want)
             olo = ohi = o
             w = max(need(self.lo, self.hi), need(o, o)) + 1
             oe = bv(o, w)
@@ -635,6 +644,33 @@ class SymInt:
         if want == "r":
             return mk_int(r, rlo, rhi)
         return (mk_int(q, qlo, qhi), mk_int(r, rlo, rhi))
+
+    def _divmod_const_spec(self, o, want):
+        """floor division by a positive constant through its specification: fresh q, r with
+        self == q*o + r and 0 <= r < o (q and r are uniquely determined, so this is exact); the solver then
+        needs a constant multiplier instead of a divider circuit"""
+        ex = CUR
+        qlo, qhi = self.lo // o, self.hi // o
+        rlo, rhi = (0, o - 1) if qlo != qhi else (min(self.lo - qlo * o, self.hi - qlo * o), max(self.lo - qlo * o, self.hi - qlo * o))
+        wq = need(qlo, qhi)
+        wr = need(0, o - 1)
+        q = z3.BitVec(ex.fresh_name("divq"), wq)
+        r = z3.BitVec(ex.fresh_name("divr"), wr)
+        w = max(self.w, wq + need(o, o) + 1, wr + 1) + 1
+        if UNI is not None and w <= UNI:
+            w = UNI
+        qe = z3.SignExt(w - wq, q)
+        re = z3.ZeroExt(w - wr, r) if w > wr else r
+        ex.pc.append(z3.And(self.at(w) == qe * bv(o, w) + re, z3.ULT(r, bv(o, wr)) if o < (1 << wr) else z3.BoolVal(True),
+                            q >= bv(qlo, wq), q <= bv(qhi, wq)))
+        ex.model = None
+        Q = mk_int(q, qlo, qhi)
+        R = mk_int(z3.ZeroExt(1, r), 0, o - 1)
+        if want == "q":
+            return Q
+        if want == "r":
+            return R
+        return (Q, R)
 
     def __floordiv__(self, o):
         return self._divmod(o, "q")
@@ -966,6 +1002,30 @@ def is_sym(x):
 # ----------------------------------------------------------------------------------------
 # Explorer
 
+def _cvc5_unsat(assumptions, timeout_s):
+    import shutil
+    import subprocess
+    import tempfile
+    exe = shutil.which("cvc5")
+    if exe is None:
+        return False
+    s = z3.Solver()
+    s.add(*assumptions)
+    text = "(set-logic ALL)\n" + s.to_smt2()
+    with tempfile.NamedTemporaryFile("w", suffix=".smt2", delete=False) as f:
+        f.write(text)
+        path = f.name
+    try:
+        r = subprocess.run([exe, "--solve-bv-as-int=sum", path], capture_output=True, text=True, timeout=max(10, timeout_s))
+        out = r.stdout.strip().splitlines()
+        return bool(out) and out[0].strip() == "unsat" and "(error" not in r.stdout
+    except Exception:
+        return False
+    finally:
+        import os
+        os.unlink(path)
+
+
 class Violation:
     def __init__(self, label, inputs, note=""):
         self.label = label
@@ -998,11 +1058,13 @@ class Explorer:
     symbolic = True
 
     def __init__(self, rlimit=30_000_000, max_paths=100000, max_decisions=3000, max_violations=1,
-                 deadline_s=None, known=None, seed=0, cap=None, collision_free=False):
+                 deadline_s=None, known=None, seed=0, cap=None, collision_free=False, uniform=None):
         self.cap = cap
+        self.uniform = uniform
         self.collision_free = collision_free
         self.query_timeout_ms = 120000
         self.solver = z3.Solver()
+        self._last_solver = self.solver
         self.rlimit = rlimit
         self.max_paths = max_paths
         self.max_decisions = max_decisions
@@ -1035,14 +1097,38 @@ class Explorer:
         self.fresh += 1
         return "%s!%d" % (stem, self.fresh)
 
-    def _solve(self, extra=None):
+    def _solve(self, extra=None, fresh=False):
         assumptions = list(self.pc)
         if extra is not None:
             assumptions.append(extra)
         self.solver.set("rlimit", self.rlimit)
         self.solver.set("timeout", self.query_timeout_ms)
         t = time.time()
-        r = self.solver.check(*assumptions)
+        if fresh:
+            r = z3.unknown
+        else:
+            r = self.solver.check(*assumptions)
+            self._last_solver = self.solver
+        if r == z3.unknown:
+            # assertion queries (and feasibility queries the incremental core gave up on) go to a fresh solver with full
+            # preprocessing, then to the integer-blasting bit-vector engine
+            for cfg in ({}, {"smt.bv.solver": 2}):
+                s2 = z3.Solver()
+                for k, v in cfg.items():
+                    s2.set(k, v)
+                s2.set("rlimit", self.rlimit)
+                s2.set("timeout", min(self.query_timeout_ms, 20000))
+                s2.add(*assumptions)
+                r = s2.check()
+                if r != z3.unknown:
+                    self._last_solver = s2
+                    break
+            if r == z3.unknown and fresh:
+                # last resort for assertion queries: cvc5 with the integer encoding of bit-vector arithmetic
+                # (decides linear identities that defeat bit-blasting); only an `unsat` answer is used
+                if _cvc5_unsat(assumptions, self.query_timeout_ms // 2000):
+                    self.stats.notes.append("a query was discharged by cvc5 --solve-bv-as-int=sum after z3 returned unknown")
+                    r = z3.unsat
         self.stats.solver_s += time.time() - t
         self.stats.queries += 1
         return r
@@ -1051,7 +1137,7 @@ class Explorer:
         if self.model is None:
             r = self._solve()
             if r == z3.sat:
-                self.model = self.solver.model()
+                self.model = self._last_solver.model()
             elif r == z3.unsat:
                 raise AssumeFailed("path condition infeasible")
             else:
@@ -1107,7 +1193,7 @@ class Explorer:
         other = z3.Not(e) if val else e
         r = self._solve(other)
         if r == z3.sat:
-            self.work.append((self.decisions + [not val], self.solver.model()))
+            self.work.append((self.decisions + [not val], self._last_solver.model()))
         elif r != z3.unsat:
             self.stats.inconclusive += 1
             self.stats.notes.append("unknown feasibility at decision %d" % i)
@@ -1170,7 +1256,7 @@ class Explorer:
                 self.stats.inconclusive += 1
                 self.stats.notes.append("unknown while enumerating values at decision %d" % i)
                 break
-            m2 = self.solver.model()
+            m2 = self._last_solver.model()
             v = m2.eval(x.e, model_completion=True).as_signed_long()
             others.append((v, m2))
             blocked.append(x.e != bv(v, w))
@@ -1220,12 +1306,12 @@ class Explorer:
             self.stats.discharged += 1
             return True
         self.stats.checks_solver += 1
-        r = self._solve(z3.Not(e))
+        r = self._solve(z3.Not(e), fresh=True)
         if r == z3.unsat:
             self.stats.discharged += 1
             return True
         if r == z3.sat:
-            self._violation(label, self.solver.model(), detail)
+            self._violation(label, self._last_solver.model(), detail)
         self.stats.inconclusive += 1
         self.stats.notes.append("unknown on check %s" % label)
         if len(self.unknown_samples) < 3:
@@ -1328,9 +1414,10 @@ class Explorer:
 
     # -- driver ----------------------------------------------------------------------------------
     def run(self, fn):
-        global CUR, CAP
+        global CUR, CAP, UNI
         CUR = self
         CAP = self.cap
+        UNI = self.uniform
         self.work = [([], None)]
         self.known_used = set()
         self.unknown_samples = []
@@ -1373,6 +1460,7 @@ class Explorer:
         finally:
             CUR = None
             CAP = None
+            UNI = None
         return self
 
 
